@@ -23,4 +23,5 @@ Definition f32ops : sops float := {|
   sadd := fun a b => round32 (a + b); smul := fun a b => round32 (a * b); ssub := fun a b => round32 (a - b);
   sopp := PrimFloat.opp;
   sdiv := fun a b => round32 (a / b); ssqrt := fun a => round32 (PrimFloat.sqrt a);
-  sltb := PrimFloat.ltb; sleb := PrimFloat.leb; seqb := PrimFloat.eqb; sabs := PrimFloat.abs |}.
+  sltb := PrimFloat.ltb; sleb := PrimFloat.leb; seqb := PrimFloat.eqb; sabs := PrimFloat.abs;
+  snormal := fun x => match PrimFloat.classify x with FloatClass.PNormal | FloatClass.NNormal => true | _ => false end |}.
